@@ -141,64 +141,84 @@ def r1(ctx):
     ctx.need(chunk_calls, "C01.R1: no ChunkedReader(..) construction found in Message.set_body_reader")
     ctx.need(len_calls, "C01.R1: no LengthReader(..) construction found in Message.set_body_reader")
     chunk_nodes = [n for c in chunk_calls for n in nodes_with(f, c)]
-    # role L: the length argument of LengthReader
-    L = None
-    for c in len_calls:
-        args = list(c.args) + [k.value for k in c.keywords]
-        for a in args[1:]:
-            nm = [x.id for x in ast.walk(a) if isinstance(x, ast.Name)]
-            if len(nm) == 1:
-                L = nm[0]
-    ctx.need(L is not None, "C01.R1: cannot infer the content-length variable from LengthReader(..) arguments")
-    # role F: the boolean that controls the ChunkedReader construction
-    F = None
-    for t in g.tests():
-        if isinstance(t.ast, ast.Name) and all(n not in g.reachable([g.entry], without_edges=[(t, "true")], follow_exc=False) for n in chunk_nodes):
-            F = t.ast.id
-    ctx.need(F is not None, "C01.R1: cannot infer the 'chunked seen' flag controlling ChunkedReader(..)")
-    ctx.count("roles", 2)
-    loopvars = set()
-    for n in walk_own(f.node):
-        if isinstance(n, ast.For):
-            loopvars |= names(n.target)
+    len_nodes = [(n, c) for c in len_calls for n in nodes_with(f, c)]
+    eof_calls = calls_to(repo, f, BODY + ".EOFReader")
+    eof_nodes = [n for c in eof_calls for n in nodes_with(f, c)]
 
-    # (a) chunked on HTTP/1.0
-    p, hits = guard_check(f, chunk_nodes, _version_recog(f))
-    ctx.check("C01.R1", p is None, key(f, "ChunkedReader|version>=1.1"), site(f, chunk_calls[0]),
-              "ChunkedReader(..) is reachable without the HTTP version having been tested >= 1.1 (chunked on HTTP/1.0 must be rejected)",
-              "dominated by version test (%d recognised)" % len(hits), path=p and g.fmt_path(p))
-    # (b) CL + TE conflict
-    kl = kills_of(f, L)
-    p, hits = guard_check(f, chunk_nodes, _none_recog(L), kills=kl)
-    ctx.check("C01.R1", p is None, key(f, "ChunkedReader|no-content-length"), site(f, chunk_calls[0]),
-              "ChunkedReader(..) is reachable although a Content-Length may be present (CL+TE conflict must be rejected)",
-              "dominated by `%s is not None` -> raise" % L, path=p and g.fmt_path(p))
-    # (c) repeated Content-Length
-    stores = [n for n in stores_to_name(f, L) if n.kind == "stmt" and isinstance(n.ast, ast.Assign) and names(n.ast.value) & loopvars]
-    ctx.need(stores, "C01.R1: no store of a header value into %s found" % L)
-    for s in stores:
-        p, hits = guard_check(f, [s], _none_recog(L), kills=[k for k in kl if k is not s])
-        ctx.check("C01.R1", p is None, key(f, "store-CL|single"), site(f, s),
-                  "a Content-Length value is stored without first rejecting an earlier one (repeated Content-Length)",
-                  "dominated by `%s is not None` -> raise" % L, path=p and g.fmt_path(p))
-    # (d) repeated chunked
-    fstores = [n for n in stores_to_name(f, F) if n.kind == "stmt" and isinstance(n.ast, ast.Assign) and const(n.ast.value, NO) is True]
-    ctx.need(fstores, "C01.R1: no `%s = True` found" % F)
-    for s in fstores:
-        p, hits = guard_check(f, [s], _truthy_recog(F), kills=[k for k in kills_of(f, F) if k is not s])
-        ctx.check("C01.R1", p is None, key(f, "set-chunked|once"), site(f, s),
-                  "`%s = True` is reachable when chunked was already seen (repeated chunked coding)" % F,
-                  "dominated by `%s` false edge" % F, path=p and g.fmt_path(p))
-    # (e) digits-only, non-negative before LengthReader(.., L)
-    len_nodes = [n for c in len_calls for n in nodes_with(f, c)]
-    p, hits = guard_check(f, len_nodes, _digits_recog(repo, f, L), kills=kl)
-    ctx.check("C01.R1", p is None, key(f, "LengthReader|digits"), site(f, len_calls[0]),
-              "LengthReader(.., %s) is reachable without a digits-only check of the Content-Length value" % L,
-              "dominated by digits-only test", path=p and g.fmt_path(p))
-    p, hits = guard_check(f, len_nodes, _neg_recog(f, L))
-    ctx.check("C01.R1", p is None, key(f, "LengthReader|non-negative"), site(f, len_calls[0]),
-              "LengthReader(.., %s) is reachable without rejecting a negative length" % L,
-              "dominated by `%s < 0` -> raise" % L, path=p and g.fmt_path(p))
+    # (a)-(e) framing decision, evaluated on concrete header lists (Content-Length / Transfer-Encoding combinations,
+    # HTTP versions): which reader is constructed -- and with which length -- or is the message rejected.  Independent
+    # of how the function names its variables, orders its checks or splits them into helpers.
+    def expected(headers, version):
+        cl = [v for n_, v in headers if n_ == "CONTENT-LENGTH"]
+        te = [v for n_, v in headers if n_ == "TRANSFER-ENCODING"]
+        if len(cl) > 1:
+            return "reject"
+        seen = False
+        for field in te:
+            for cdg in field.split(","):
+                low = cdg.strip(" \t").lower()
+                if low == "chunked":
+                    if seen:
+                        return "reject"
+                    seen = True
+                elif low in spec.TE_KNOWN_NON_FINAL:
+                    if seen:
+                        return "reject"
+                else:
+                    return "reject"
+        if seen:
+            if version < (1, 1) or cl:
+                return "reject"
+            return "chunked"
+        if cl:
+            v = cl[0]
+            if not (v.isascii() and v.isdigit()):
+                return "reject"
+            return "length=%d" % int(v)
+        return "eof"
+    CL, TE = "CONTENT-LENGTH", "TRANSFER-ENCODING"
+    cases = [
+        ([(CL, "5")], (1, 1)), ([(CL, "0")], (1, 1)), ([(CL, "007")], (1, 0)), ([(CL, "18446744073709551616")], (1, 1)),
+        ([(CL, "-1")], (1, 1)), ([(CL, "+5")], (1, 1)), ([(CL, "5 ")], (1, 1)), ([(CL, " 5")], (1, 1)), ([(CL, "0x5")], (1, 1)), ([(CL, "5_0")], (1, 1)),
+        ([(CL, "")], (1, 1)), ([(CL, "5,5")], (1, 1)), ([(CL, "\xb2")], (1, 1)), ([(CL, "\xbc")], (1, 1)), ([(CL, "1e3")], (1, 1)), ([(CL, "5.0")], (1, 1)),
+        ([(CL, "5"), (CL, "5")], (1, 1)), ([(CL, "5"), (CL, "6")], (1, 1)), ([(CL, "0"), (CL, "0")], (1, 1)),
+        ([(TE, "chunked")], (1, 1)), ([(TE, "chunked")], (1, 0)), ([(TE, "chunked")], (0, 9)), ([(TE, "chunked")], (2, 0)),
+        ([(CL, "5"), (TE, "chunked")], (1, 1)), ([(TE, "chunked"), (CL, "5")], (1, 1)), ([(CL, "0"), (TE, "chunked")], (1, 1)), ([(TE, "gzip, chunked"), (CL, "00")], (1, 1)),
+        ([(TE, "gzip"), (CL, "5")], (1, 1)), ([(TE, "gzip")], (1, 1)), ([(TE, "chunked"), (TE, "chunked")], (1, 1)), ([(TE, "gzip"), (TE, "chunked")], (1, 1)),
+        ([(TE, "chunked"), (TE, "gzip")], (1, 1)), ([], (1, 1)), ([("HOST", "x")], (1, 0)), ([(CL, "5"), ("HOST", "x")], (1, 1)),
+    ]
+    rows = []
+    probes = {}
+    for n, c in len_nodes:
+        a_ = (list(c.args) + [k.value for k in c.keywords])
+        probes[n.id] = ("len", lambda e_, env, a=a_[1] if len(a_) > 1 else None: e_.ev(a, env) if a is not None else "?")
+    watch0 = {n.id: "chunked-reader" for n in chunk_nodes}
+    watch0.update({n.id: "eof-reader" for n in eof_nodes})
+    for headers, version in cases:
+        ex = Explorer(f)
+        outs = ex.run(g.entry, {"self.headers": tuple(headers), "self.version": version}, watch=watch0, probes=probes)
+        got = set()
+        for o in outs:
+            if o.kind == "raise":
+                got.add("reject")
+            elif o.kind == "return":
+                ln = [e[1] for e in o.events if isinstance(e, tuple) and e[0] == "len"]
+                if "chunked-reader" in o.events:
+                    got.add("chunked")
+                elif ln:
+                    got.add("length=%s" % (ln[0],))
+                elif "eof-reader" in o.events:
+                    got.add("eof")
+                else:
+                    got.add("?")
+            else:
+                got.add(o.kind)
+        want = expected(headers, version)
+        rows.append({"headers": headers, "version": version, "outcome": sorted(got), "required": want})
+        ctx.check("C01.R1", got == {want}, key(f, "framing|%r|%s" % (headers, version)), site(f, text="headers %r HTTP/%d.%d" % (headers, version[0], version[1])),
+                  "framing decision for %r on HTTP/%d.%d is %s, RFC 9112 6.1-6.3 requires %s (Content-Length must be 1*DIGIT and unique; chunked excludes Content-Length and needs HTTP/1.1)" % (
+                      headers, version[0], version[1], sorted(got), want), "outcome %s" % want)
+    ctx.table("C01.R1 framing", rows)
     # (f) transfer-coding table: the whole function is evaluated on a concrete header list (finite abstract
     # evaluation, nothing is executed): which reader is constructed / is the message rejected
     te_tests = [t for t in g.tests() if any(isinstance(x, ast.Constant) and isinstance(x.value, str) and x.value.lower() == "chunked" for x in ast.walk(t.ast))]
@@ -452,43 +472,7 @@ def r3(ctx):
     # ---- chunk size
     f2 = ctx.fn(repo.func(BODY + ".ChunkedReader.parse_chunk_size"))
     g2 = f2.cfg
-    ints = [c for c in calls_to(repo, f2, "int") if len(c.args) == 2 and const(c.args[1], NO) == 16]
-    ctx.need(ints, "C01.R3: int(.., 16) not found in parse_chunk_size")
-    for c in ints:
-        arg = c.args[0]
-        an = arg.id if isinstance(arg, ast.Name) else None
-        ctx.need(an, "C01.R3: int(x,16) argument is not a plain variable")
-        nodes = nodes_with(f2, c)
-        p, hits = guard_check(f2, nodes, hex_recog(repo, f2, an), kills=[k for k in kills_of(f2, an) if k not in nodes])
-        ctx.check("C01.R3", p is None, key(f2, "hex-only"), site(f2, c), "int(%s, 16) is reachable without an exact HEXDIG check (int() accepts sign, '_', blanks, 0x)" % an,
-                  "dominated by HEXDIG-only test", path=p and g2.fmt_path(p))
-
-        def e_recog(e, an=an):
-            if isinstance(e, ast.Name) and e.id == an:
-                return -1
-            return _len_recog(f2, [0], [1, 4], mention=an)(e)
-        p, hits = guard_check(f2, nodes, e_recog, kills=[k for k in kills_of(f2, an) if k not in nodes])
-        ctx.check("C01.R3", p is None, key(f2, "non-empty-size"), site(f2, c), "an empty chunk-size can reach int(.., 16)", "non-empty check dominates", path=p and g2.fmt_path(p))
-        # BWS trimming only with an extension
-        ext_names = set()
-        for n in g2.stmts(ast.Assign):
-            v = n.ast.value
-            if isinstance(v, ast.Call) and isinstance(v.func, ast.Attribute) and v.func.attr in ("split", "partition") and v.args and const(v.args[0], NO) in (b";", ";"):
-                for t in n.ast.targets:
-                    if isinstance(t, (ast.Tuple, ast.List)):
-                        for i, el in enumerate(t.elts):
-                            if i > 0:
-                                ext_names |= names(el)
-        strips = [s for s in method_calls(f2, ("strip", "rstrip", "lstrip")) if an in names(s.func.value)]
-        for s in strips:
-            def x_recog(e):
-                if isinstance(e, ast.Name) and e.id in ext_names:
-                    return -1
-                return None
-            p, hits = guard_check(f2, nodes_with(f2, s), x_recog)
-            ctx.check("C01.R3", p is None and bool(ext_names), key(f2, "bws-only-with-ext"), site(f2, s),
-                      "whitespace is trimmed from the chunk-size even when no chunk-ext follows (RFC 9112 7.1.1 allows BWS only before ';')",
-                      "trim only under chunk-ext", path=p and g2.fmt_path(p))
+    chunk_size_table(ctx, "C01.R3")
     # ---- chunk terminator
     f3 = ctx.fn(repo.func(BODY + ".ChunkedReader.parse_chunked"))
     g3 = f3.cfg
@@ -584,6 +568,80 @@ def hex_recog(repo, func, name):
 
 def rx_pattern(rx):
     return rx.pattern
+
+
+def chunk_size_ok(repo):
+    """does the evaluated chunk-size table hold on this tree (used by the lenient-primitive lint for `int(x, 16)`)"""
+    class _Null:
+        def __init__(self):
+            self.bad = 0
+
+        def check(self, rid, ok, *a, **k):
+            if not ok:
+                self.bad += 1
+
+        def table(self, *a, **k):
+            pass
+
+        def fn(self, f):
+            return f
+
+        def need(self, cond, msg):
+            if not cond:
+                raise AnalysisError(msg)
+    n = _Null()
+    n.repo = repo
+    chunk_size_table(n, "x")
+    return n.bad == 0
+
+
+def chunk_size_table(ctx, rid):
+    """evaluated: ChunkedReader.parse_chunk_size on chunk-size lines -- every single byte value in first, middle and last
+    position of the size field, with and without chunk extension and BWS: accepted exactly when the field is 1*HEXDIG
+    (RFC 9112 7.1; BWS only before ';'), and then with the hexadecimal value and the bytes after CRLF as residue"""
+    repo = ctx.repo
+    f2 = ctx.fn(repo.func(BODY + ".ChunkedReader.parse_chunk_size"))
+    g2 = f2.cfg
+    DATA = "data" if "data" in f2.params else f2.params[-1]
+    HEX = b"0123456789abcdefABCDEF"
+
+    def want_of(data):
+        line, _, rest = data.partition(b"\r\n")
+        size, sep, _ext = line.partition(b";")
+        if sep:
+            size = size.rstrip(b" \t")
+        if not size or any(c not in HEX for c in size):
+            return "reject"
+        n = int(size, 16)
+        return (0, None) if n == 0 else (n, rest)
+    fields = [b"0", b"1a", b"1A", b"ff", b"000", b"", b"0x1a", b"0X1", b"+1", b"-1", b"1_0", b" 1a", b"1a ", b"1a\t", b"\t1a", b"1 a", b"1g", b"g", b"1a\x00", b"\xb2", b"1\xb9",
+              b"1a;ext", b"1a;ext=1;y", b"1a ;ext", b"1a\t;ext", b"1a \t ;e", b" 1a;e", b";ext", b" ;ext", b"0;x", b"0 ;x", b"1a;", b"1a;;", b"1a; ", b"0x1;e", b"1a\x0b;e", b"1a\x0c;e", b"1a\xa0;e"]
+    for b_ in range(256):
+        if b_ in (0x0d, 0x0a):
+            continue
+        c = bytes([b_])
+        fields += [c, b"1" + c, c + b"1", b"1" + c + b"1"]
+    fields += [b"1\r", b"\r1", b"1\n", b"\n1"]
+    rows = []
+    bad = 0
+    seen = set()
+    for fld in fields:
+        if fld in seen:
+            continue
+        seen.add(fld)
+        data = fld + b"\r\nREST"
+        outs = Explorer(f2).run(g2.entry, {DATA: data})
+        got = set()
+        for o in outs:
+            got.add("reject" if o.kind == "raise" else (o.detail if o.kind == "return" else o.kind))
+        want = want_of(data)
+        okrow = got == {want}
+        if len(rows) < 40 or not okrow:
+            rows.append({"size_field": repr(fld), "outcome": sorted(map(str, got)), "required": str(want)})
+        ctx.check(rid, okrow, key(f2, "chunk-size|%r" % (fld,)), site(f2, text="chunk-size line %r" % (fld,)),
+                  "chunk-size line %r gives %s, RFC 9112 7.1 requires %s (the size is 1*HEXDIG -- int() alone also accepts sign, '_', blanks and a 0x prefix; BWS only before a chunk extension)" % (
+                      fld, sorted(map(str, got)), want), "-> %s" % (want,))
+    ctx.table(rid + " chunk-size lines (sample)", rows[:60])
 
 
 # ------------------------------------------------------------------------------- R4
@@ -683,6 +741,11 @@ def _check_int(ctx, repo, f, c):
     arg = c.args[0]
     base16 = len(c.args) == 2 and const(c.args[1], NO) == 16
     nodes = nodes_with(f, c)
+    if base16 and f.qualname == BODY + ".ChunkedReader.parse_chunk_size":
+        # decided by evaluation (C01.R3 chunk-size table: every byte value in every position of the size field)
+        okk = chunk_size_ok(repo)
+        ctx.check("C01.R4", okk, key(f, "int(.., 16)"), site(f, c), "`%s` accepts a chunk-size that is not 1*HEXDIG (see the chunk-size table of C01.R3)" % txt, "only 1*HEXDIG reaches int(.., 16) (evaluated)")
+        return
     # (i) regex group of a \d class
     if isinstance(arg, ast.Call) and isinstance(arg.func, ast.Attribute) and arg.func.attr == "group" and isinstance(arg.func.value, ast.Name):
         mv = arg.func.value.id
@@ -704,6 +767,11 @@ def _check_int(ctx, repo, f, c):
         return
     kl = [k for k in kills_of(f, an) if k not in nodes]
     if base16:
+        if f.qualname == BODY + ".ChunkedReader.parse_chunk_size":
+            # decided by evaluation (C01.R3 chunk-size table: every byte value in every position of the size field)
+            okk = chunk_size_ok(repo)
+            ctx.check("C01.R4", okk, key(f, txt), site(f, c), "`%s` accepts a chunk-size that is not 1*HEXDIG (see the chunk-size table of C01.R3)" % txt, "only 1*HEXDIG reaches int(.., 16) (evaluated)")
+            return
         p, hits = guard_check(f, nodes, hex_recog(repo, f, an), kills=kl)
         ctx.check("C01.R4", p is None, key(f, txt), site(f, c), "`%s` not dominated by an exact HEXDIG check" % txt, "dominated by HEXDIG check", path=p and g.fmt_path(p))
         return
